@@ -919,12 +919,29 @@ class History:
         self.invalid = []
         self.table_fails = []
 
+    def callable_of(self, fid):
+        """ONE Python callable per overload spec: prepared definitions and register_function(<callable>) calls all
+        start from the same decorated function object"""
+        if fid not in self.callables:
+            self.callables[fid] = build_callable(self.defs[fid])
+        return self.callables[fid]
+
     def fd(self, fid):
         if fid not in self.fds:
             o = self.defs[fid]      # a PREPARED definition: the convention only when it was asked for
             conv = _py(o).get('via') == 'fdconv'
-            self._new_def(fid, fid, build_fd(o), expected_fd(o, convention=conv), conv)
+            fd = specs.get_function_definition(self.callable_of(fid), name=name_arg(o),
+                                               convention=ROOT.convention if conv else None)
+            self._new_def(fid, fid, fd, expected_fd(o, convention=conv), conv)
         return self.fds[fid]
+
+    def recheck_tables(self):
+        """at the end: every definition still is what it was made as (registrations elsewhere, clones and calls
+        leave a definition object alone)"""
+        for did, fd in sorted(self.fds.items()):
+            d = table_diff(fd, self.exp[did])
+            if d and not any(f == self.tag[did] for f, _ in self.table_fails):
+                self.table_fails.append((self.tag[did], ['after the history: ' + x for x in d]))
 
     def _new_def(self, did, fid, fd, exp, conv):
         self.conv[did] = conv
@@ -979,8 +996,7 @@ class History:
         elif k == 'regc':
             _, i, fid, x, did = st
             o = self.defs[fid]
-            if fid not in self.callables:
-                self.callables[fid] = build_callable(o)
+            self.callable_of(fid)
             conv = self.rec.write_conv(i)
             exp = expected_fd(o, convention=conv)
             try:
